@@ -67,6 +67,58 @@ def run_histories(o, ctx, tier, seed, tag, n_quick, n_thorough, flt=None, max_he
     return known_hit
 
 
+def run_faults(o, ctx, tier, seed, n_quick, n_thorough):
+    """A socket read of the server fails at an exact point (injected through the interposed recv: EINTR, EAGAIN as after a
+    read time-out, ECONNRESET) — once per run, at every read position of each history.  Whatever the failed read was for
+    (head, body, discarding an unread body), the server either carries on correctly or closes the connection: every response
+    the client sees is the specified one, in order, and after the first deviation there is nothing but EOF.  In particular
+    no bytes of a body are ever answered as if they were a request."""
+    t = "thorough" if tier in ("thorough", "search") else "quick"
+    r = rng_for(seed, "conn-faults")
+    n = n_quick if t == "quick" else n_thorough
+    base = []
+    while len(base) < n:
+        script, exp, meta = G.history(r, max_reqs=3)
+        if meta["early_chunked"] or not any(k in ("echo", "noread", "readk", "early", "swallow", "hookdrop", "notfound", "reqclose") for k in meta["kinds"]):
+            continue
+        base.append(("CONN max=4096 script=" + script, exp, meta))
+    # corpus: witness of F36 (fixed): chunk data split between the head segment and a later one, the later read interrupted once
+    hd = b"POST /echo HTTP/1.1\r\nTransfer-Encoding: chunked\r\n\r\n"
+    base.insert(0, ("CONN max=4096 script=s:%s,s:%s,r,c,e" % (hx(hd + b"8\r\nhel"), hx(b"loabc\r\n0\r\n\r\n")),
+                    ["R200:0:" + hx(b"helloabc"), "EOF"], {"kinds": ["echo"], "early_chunked": False, "ec_idx": None}))
+    first = C.run_sharded(ctx["kimpl"], [b[0] for b in base], shards=min(C.NCPU, 16))
+    lines, exps = [], []
+    for (line, exp, meta), a in zip(base, first):
+        got, d = transcript(a)
+        if got != exp:
+            continue   # reported by the plain histories
+        nrecv = int(d.get("recvs", "0"))
+        ks = range(nrecv) if nrecv <= 12 else sorted(set(r.randrange(nrecv) for _ in range(12)))
+        for k in ks:
+            for kind in (("EINTR", "EAGAIN", "ECONNRESET") if t != "quick" else (r.choice(["EINTR", "EAGAIN"]), "ECONNRESET")):
+                lines.append(line.replace("CONN max=4096 ", "CONN max=4096 fail=%d:%s " % (k, kind)))
+                exps.append((exp, meta))
+    impl = C.run_sharded(ctx["kimpl"], lines, shards=min(C.NCPU, 16))
+    for c, a, (exp, meta) in zip(lines, impl, exps):
+        o.evaluations += 1
+        o.count("fault:" + c.split("fail=")[1].split()[0].split(":")[1])
+        o.nontrivial.add(c)
+        got, _ = transcript(a)
+        if got is None:
+            o.violations.append({"case": c, "impl": a[:200], "why": "connection scenario crashed: " + a[:60]}); continue
+        j = next((i for i in range(min(len(got), len(exp))) if got[i] != exp[i]), min(len(got), len(exp)))
+        rest = got[j:]
+        # the /swallow handler answers with the length of what it could read and ignores the error (README idiom
+        # unwrap_or_default): "0" is that handler's specified answer to a failed read; the connection must close after it
+        if rest and j < len(meta["kinds"]) and meta["kinds"][j] == "swallow" and rest[0] == "R200:0:30":
+            rest = rest[1:]
+        if any(x != "EOF" for x in rest) and len(o.violations) < 30:
+            o.violations.append({"case": c, "impl": a[:400], "expected": ",".join(exp)[:400],
+                                 "why": "after a failed socket read the server neither carried on correctly nor closed: item %d is %s (specified: %s, or end of connection) (request kinds %s)"
+                                        % (j, rest[0][:40], exp[j][:40] if j < len(exp) else "nothing", meta["kinds"])})
+    o.extra["read_fault_cases"] = len(lines)
+
+
 def run_c07(o, ctx, tier, seed, replay=None):
     if replay is not None:
         impl = C.run_sharded(ctx["kimpl"], [replay["case"]])
@@ -76,6 +128,7 @@ def run_c07(o, ctx, tier, seed, replay=None):
             o.violations.append({"case": replay["case"], "impl": impl[0], "expected": replay["expected"], "why": "replayed transcript still differs"})
         return
     run_histories(o, ctx, tier, seed, "c07", 400, 12000, stalls=10)
+    run_faults(o, ctx, tier, seed, 40, 600)
     # the same property in epoll mode (one-request jobs re-armed by readiness): keep-alive plans incl. "next request arrives
     # while the previous one is still being handled"
     from . import epoll as E
